@@ -297,7 +297,9 @@ def state_list(tier):
             states.append({"seed": "mini", "ops": h})
     for sd in ("mini", "rich", "mini+dims9"):
         for emptied in (False, True):
-            states.append({"seed": sd, "ops": [], "held": True, "emptied": emptied})
+            states.append({"seed": sd, "ops": [], "held": "all", "emptied": emptied})
+            if sd != "mini+dims9":
+                states.append({"seed": sd, "ops": [], "held": "each", "emptied": emptied})
     if tier == "thorough":
         states.append({"seed": "light", "ops": []})
         for h in explorer.enumerate_histories("mini", 2, THIN, follow=explorer.same_entity_or_reopen):
@@ -427,12 +429,32 @@ def run_held(case):
                 continue
             r.nontrivial += 1
             r.outcomes.add("refused:" + type(exc).__name__)
+            if case["held"] == "each":
+                # the valid calls follow this one refusal directly; then a clean state again
+                ok = valid_calls_agree(r, s, ctx, case, fa["site"] + ":" + fa["cls"])
+                s.close()
+                s = build_state(case)
+                ctx, w0, d0 = prepare(s)
+                if not ok:
+                    return r
+        if case["held"] == "each":
+            r.traces = 1
+            return r
         w1, d1 = snapshot(s)
         if w1 != w0:
             r.viol("C12|held-handles|after-all-refusals|walk-changed:%s" % ",".join(walker.diff_keys(w0, w1)[:2])[:120],
                    "after the refused calls through long-lived handles the observable state changed: %s" % "; ".join(walker.diff(w0, w1, limit=3)), {"state": case})
             return r
-        # valid calls through the same handles
+        if not valid_calls_agree(r, s, ctx, case, "all-faults"):
+            return r
+        r.traces = 1
+        return r
+    finally:
+        s.close()
+
+
+def valid_calls_agree(r, s, ctx, case, after):
+        """valid calls through the long-lived handles of ctx; afterwards they show what fresh handles show"""
         steps = []
         if ctx.tag is not None and ctx.da is not None:
             steps += [("Tag.create_feature", lambda: ctx.tag.create_feature(ctx.da, nix.LinkType.Untagged)),
@@ -462,7 +484,7 @@ def run_held(case):
             except Exception as e:  # noqa
                 r.viol("C12|held-handles|%s|valid-call-after-refusals-raises-%s" % (site, type(e).__name__),
                        "after the refused calls a valid %s through the long-lived handle raises %s: %s" % (site, type(e).__name__, str(e)[:120]), {"state": case})
-                return r
+                return False
         fresh = Ctx(s.f)
         for nm in ("b", "da", "tag", "mtag", "grp", "src", "sec"):
             h, g = getattr(ctx, nm), getattr(fresh, nm)
@@ -472,13 +494,10 @@ def run_held(case):
             a, b_ = walker.canon(walker.walk_obj(h)), walker.canon(walker.walk_obj(g))
             if a != b_:
                 r.viol("C12|held-handles|%s|differs-from-fresh-handle:%s" % (type(h).__name__, ",".join(walker.diff_keys(b_, a)[:2])[:100]),
-                       "after refused and then valid calls the long-lived %s handle shows another state than a fresh one: %s" % (
-                           type(h).__name__, "; ".join(walker.diff(b_, a, limit=3))), {"state": case})
-                return r
-        r.traces = 1
-        return r
-    finally:
-        s.close()
+                       "after the refused call(s) [%s] and then valid calls the long-lived %s handle shows another state than a fresh one: %s" % (
+                           after, type(h).__name__, "; ".join(walker.diff(b_, a, limit=3))), {"state": case})
+                return False
+        return True
 
 
 
